@@ -24,8 +24,8 @@ func init() {
 			"C05.nib: DefaultParser evaluated on a text of the plain layout (36 bytes, hyphens at 8, 13, 18, 23) and of the URN layout (45 bytes, lower-case prefix), flags clear, the digit function replaced by the four bits of the digit at its text position: the resulting ID holds the first sixteen digits in Higher and the last sixteen in Lower, most significant first, bit for bit; a hyphen expected elsewhere or a digit read from a hyphen position fails the evaluation (this subsumes the hyphen-offset agreement). " +
 			"C05.digit: parseDigit as a table over the byte intervals induced by its own comparisons: '0'..'9' ↦ 0..9, 'a'..'f' ↦ 10..15, 'A'..'F' ↦ 10..15 only when upper case is allowed, everything else (0,false). " +
 			"C05.strict: decision table of the pre-loop part of DefaultParser over (len = 36 / 45 / other, RuleDisableURN, prefix bytes, hyphen bytes) compared with the documented outcomes; the URN literals agree. C05.ver: Version() = bits 15..12 of Higher; Variant() as a table over the top three bits of Lower. S-ERRZERO, S-WRAP, typed errors, C18.L for package uu.",
-		NotDecided:  []string{"fmt's %x rendering and the other stdlib summaries; otherwise the property is decided for all 2^128 IDs and all byte strings"},
-		Assumptions: []string{"fmt %0Wx prints exactly W lower-case hex digits for a value below 16^W"},
+		NotDecided:  []string{"fmt's %x rendering and the other stdlib summaries; otherwise the property is decided for all 2^128 IDs and all byte strings", "which method encoding/json picks for uu.ID (the property observes the formatter, String, URN, MarshalText/UnmarshalText and the fmt verbs)"},
+		Assumptions: []string{"fmt %0Wx prints exactly W lower-case hex digits for a value below 16^W", "Variant() is read as the number of leading one bits of the variant field, at most 3 — the library's documented encoding of the RFC 4122 fields 0, 10, 110, 111; that only Lower[63:61] matters is decided, the codomain is taken from the doc comment"},
 		Technique:   "format-string reading + bit-provenance + decision-table extraction over go/ssa",
 	})
 }
@@ -71,11 +71,15 @@ func ruleC05Reject(e *Env) {
 	// false boolean result, which the parser in turn must test
 	var helper *ssa.Function
 	var via *ssa.Call
+	var vias []*ssa.Call
 	if len(calls) == 0 {
 		for _, c := range e.C.Calls(dp, flow.InRepo) {
 			h := flow.Origin(e.C.StaticCallee(&c.Call))
 			if hc := e.C.Calls(h, isPD); len(hc) > 0 && helper == nil {
 				helper, via, calls = h, c, hc
+			}
+			if helper != nil && h == helper {
+				vias = append(vias, c) // every call of the helper: each one's verdict must be tested
 			}
 		}
 	}
@@ -138,15 +142,23 @@ func ruleC05Reject(e *Env) {
 							continue
 						}
 						// … which the parser tests, its false edge leading only to error returns
-						for _, vr := range *via.Referrers() {
-							if vex, ok := vr.(*ssa.Extract); ok && vex.Index == j {
-								for _, vfe := range falseEdges(vex) {
-									if flow.LeadsOnlyToErrors(vfe) {
-										rejects = true
+						all := len(vias) > 0
+						for _, v1 := range vias {
+							tested := false
+							for _, vr := range *v1.Referrers() {
+								if vex, ok := vr.(*ssa.Extract); ok && vex.Index == j {
+									for _, vfe := range falseEdges(vex) {
+										if flow.LeadsOnlyToErrors(vfe) {
+											tested = true
+										}
 									}
 								}
 							}
+							if !tested {
+								all = false
+							}
 						}
+						rejects = all
 					}
 				}
 				if rejects {
